@@ -50,6 +50,7 @@ PROPS['C18'] = dict(
                  'initial values of a fresh instance are adopted, not modelled'],
     stages=[
         dict(name='rsxx', variant='asan', harness='c18_settings.cpp', quick=1200, thorough=12000, budget=60),
+        dict(name='formats', variant='asan', harness='c18_settings.cpp', quick=1200, thorough=12000, budget=60),
         dict(name='histories', variant='asan', harness='c18_settings.cpp', quick=2000, thorough=20000, budget=60, cxxflags=['-O1']),
     ],
 )
